@@ -30,7 +30,13 @@ Progs == {p \in [carrier : Carriers, wrapper : Wrappers, renamed : BOOLEAN, bkin
              /\ p.ovr # "none" => p.carrier \in {"field", "vfield"}
              /\ p.bname # "upper" => (~p.renamed /\ p.ovr = "none")}
 
-Init == \/ /\ mode = "graph" /\ G \in [Nodes -> SUBSET Nodes] /\ perm = <<>> /\ prog = NoProg
+\* three-item programs A -> B, A -> C: TWO references in one item, each through a composed container; the two container shapes may
+\* coincide (Option<Vec<B>> next to Option<Vec<C>>) - every reference is a dependency of its own, whatever else the item mentions
+Wrappers2 == {"direct", "vec", "option_vec", "vec_option", "option_mapv", "option_garg", "mapk"}
+Progs2 == [carrier : {"field", "vfield"}, w1 : Wrappers2, w2 : Wrappers2, same_target : BOOLEAN]
+Init == \/ /\ mode = "prog2" /\ G = [x \in Nodes |-> {}] /\ perm = <<>>
+           /\ \E q \in Progs2 : prog = [NoProg EXCEPT !.carrier = q.carrier, !.wrapper = q.w1, !.bname = q.w2, !.twin = q.same_target]
+        \/ /\ mode = "graph" /\ G \in [Nodes -> SUBSET Nodes] /\ perm = <<>> /\ prog = NoProg
         \/ /\ mode = "perm" /\ G = [x \in Nodes |-> {}] /\ prog = NoProg
            /\ \E n \in 1..PermN : perm \in {p \in [1..n -> 1..n] : \A i, j \in 1..n : i # j => p[i] # p[j]}
         \/ /\ mode = "prog" /\ G = [x \in Nodes |-> {}] /\ perm = <<>> /\ prog \in Progs
@@ -42,6 +48,9 @@ AdjDesc == [x \in Nodes |-> Desc(G[x])]
 Emit == IF mode = "graph"
         THEN PrintT(<<"REPLAY", ToJson([mode |-> mode, asc |-> AdjAsc, desc |-> AdjDesc,
                                         predict_asc |-> M!ToposortImpl(AdjAsc), predict_desc |-> M!ToposortImpl(AdjDesc)])>>)
+        ELSE IF mode = "prog2"
+        THEN PrintT(<<"REPLAY", ToJson([mode |-> mode, carrier |-> prog.carrier, w1 |-> prog.wrapper, w2 |-> prog.bname, same_target |-> prog.twin,
+                                        edges |-> IF prog.twin THEN << <<1, 2>>, <<1, 2>> >> ELSE << <<1, 2>>, <<1, 3>> >>])>>)
         ELSE IF mode = "prog"
         THEN PrintT(<<"REPLAY", ToJson([mode |-> mode, prog |-> prog, edges |-> << <<1, 2>> >>,
                                         collected |-> M!Collected(prog.carrier, prog.wrapper, prog.renamed)])>>)
@@ -51,6 +60,6 @@ Emit == IF mode = "graph"
 \* M => P in the model (toposort_impl on the graph it is given; the permutation realised by sort_by_indices)
 ModelOk == IF mode = "graph"
            THEN OrderOk(M!ToposortImpl(AdjAsc), G) /\ OrderOk(M!ToposortImpl(AdjDesc), G)
-           ELSE IF mode = "prog" THEN TRUE
+           ELSE IF mode \in {"prog", "prog2"} THEN TRUE
            ELSE M!SortByIndices([i \in 1..Len(perm) |-> i], perm) = perm
 =============================================================================
